@@ -489,6 +489,35 @@ def limit_grid(cfg):
             out.append(o)
             out += ["pop_back 0" if s else "cmp 0 0", "push_back 0 v9" if s else "cmp 0 0", "cmp 0 0"]
             hid += 1
+    # far jumps: one bulk operation takes a dynamic vector from a small or medium size (where the geometric growth still
+    # fits the size_type) to beyond the limit; counts stay within the size_type themselves
+    if cfg.flavour != "fcv":
+        small = lim < 300
+        sizes = sorted(set([0, 1, cfg.N, cfg.N + 1, 40, 100, lim // 2, (2 * lim) // 3 - 1, (2 * lim) // 3 + 1]))
+        for s in sizes:
+            if s < 0 or s > lim:
+                continue
+            for pre in ([["ctor_n 0 %d" % s], ["ctor_n 0 %d" % s, "reserve 0 %d" % min(lim, s + 9)]] if s else [["ctor_default 0"]]):
+                ops = []
+                for total in (lim + 1, lim + 2, lim + 45, min(s + lim, 2 * lim)):
+                    n = total - s
+                    if n <= 0 or n > cfg.M:
+                        continue
+                    for p in sorted(set([0, s // 2, s])):
+                        ops.append("insert_n 0 %d %d v7" % (p, n))
+                        if small:
+                            ops.append("insert_range 0 %d fwd %s" % (p, ",".join(["7"] * n)))
+                    ops += ["append_n 0 %d" % n, "append_nv 0 %d v7" % n]
+                    if small:
+                        ops += ["append_range 0 fwd %s" % ",".join(["7"] * n), "append_range 0 inp %s" % ",".join(["7"] * n)]
+                if small:
+                    ops += ["assign_range 0 fwd %s" % ",".join(["7"] * (lim + 1)), "assign_range 0 fwd %s" % ",".join(["7"] * (lim + 40))]
+                for o in sorted(set(ops)):
+                    out.append("H l%d" % hid)
+                    out.extend(pre)
+                    out.append(o)
+                    out += ["pop_back 0" if s else "cmp 0 0", "push_back 0 v9", "cmp 0 0"]
+                    hid += 1
     return out
 
 
